@@ -166,6 +166,7 @@ func workerMain(o *options) int {
 	sigs := map[uint64]bool{}
 	allSigs := map[uint64]bool{}
 	ngr := map[uint64]bool{}
+	schedSigs := map[uint64]bool{}
 	if o.hashes {
 		sum.Hashes = map[int]string{}
 	}
@@ -203,6 +204,9 @@ func workerMain(o *options) int {
 			if len(sigs) < 1_000_000 {
 				sigs[r.AbsSig] = true
 			}
+		}
+		if r.SchedSig != 0 && len(schedSigs) < 1_000_000 {
+			schedSigs[r.SchedSig] = true
 		}
 		if len(ngr) < 200_000 {
 			r.ctx.ngrams(func(g uint64) { ngr[g] = true })
@@ -275,6 +279,9 @@ func workerMain(o *options) int {
 		sum.Sigs = append(sum.Sigs, s)
 	}
 	sum.AllSigs = len(allSigs)
+	for g := range schedSigs {
+		sum.SchedSigs = append(sum.SchedSigs, g)
+	}
 	for g := range ngr {
 		sum.Ngrams = append(sum.Ngrams, g)
 	}
@@ -604,7 +611,7 @@ type batchAgg struct {
 	runs, nonTriv, events, ops int64
 	counters                   map[string]int64
 	foreign                    map[string]int64
-	sigs, ngrams               map[uint64]bool
+	sigs, ngrams, schedSigs    map[uint64]bool
 	allSigs                    int
 	samples                    [][]string
 	viols                      []string
@@ -638,6 +645,9 @@ func (a *batchAgg) add(s *workerSummary) {
 	}
 	for _, g := range s.Ngrams {
 		a.ngrams[g] = true
+	}
+	for _, g := range s.SchedSigs {
+		a.schedSigs[g] = true
 	}
 	a.allSigs += s.AllSigs
 	for _, sm := range s.Samples {
@@ -697,7 +707,7 @@ func parentMain(o *options) int {
 		}
 	}
 	fmt.Printf("VERIF_SEED=%d property=%s tier=%s workers=%d\n", o.seed, o.prop, o.tier, o.workers)
-	agg := &batchAgg{counters: map[string]int64{}, foreign: map[string]int64{}, sigs: map[uint64]bool{}, ngrams: map[uint64]bool{}}
+	agg := &batchAgg{counters: map[string]int64{}, foreign: map[string]int64{}, sigs: map[uint64]bool{}, ngrams: map[uint64]bool{}, schedSigs: map[uint64]bool{}}
 	var mu sync.Mutex
 	runShare(self, o, false, agg, &mu)
 	raceRuns := runsFor(p, o.tier, true)
@@ -706,7 +716,7 @@ func parentMain(o *options) int {
 		if o.racebin == "" {
 			return fatal2("property %s needs the race build (-racebin)", o.prop)
 		}
-		raceAgg = &batchAgg{counters: map[string]int64{}, foreign: map[string]int64{}, sigs: map[uint64]bool{}, ngrams: map[uint64]bool{}}
+		raceAgg = &batchAgg{counters: map[string]int64{}, foreign: map[string]int64{}, sigs: map[uint64]bool{}, ngrams: map[uint64]bool{}, schedSigs: map[uint64]bool{}}
 		runShare(o.racebin, o, true, raceAgg, &mu)
 		agg.viols = append(agg.viols, raceAgg.viols...)
 		agg.crashes = append(agg.crashes, raceAgg.crashes...)
@@ -898,29 +908,30 @@ func writeEvidence(o *options, p *Prop, agg, raceAgg *batchAgg, wall float64, nV
 		samples = append(samples, "no sample captured in this batch")
 	}
 	cov := map[string]interface{}{
-		"evaluations":              agg.runs + raceRunsOf(raceAgg),
-		"distinct_nontrivial":      len(agg.sigs),
-		"rule":                     p.Rule + " A run is non-trivial if at least one fault fired, a buffer was grown or recycled, or a task switch happened; two runs are distinct if the hashes of their abstract event traces (operation kind x size bucket x outcome x flags) differ.",
-		"samples":                  samples,
-		"exhaustive":               false,
-		"simulated_runs":           agg.runs,
-		"race_build_runs":          raceRunsOf(raceAgg),
-		"nontrivial_runs":          agg.nonTriv,
-		"distinct_abstract_3grams": len(agg.ngrams),
-		"operations":               agg.ops,
-		"simulated_time_events":    agg.events,
-		"runs_per_hour":            int64(float64(agg.runs+raceRunsOf(raceAgg)) / wall * 3600),
-		"seeds_per_hour":           fmt.Sprintf("%.1f batches of this size per hour; every run index of a batch is its own PRNG stream derived from VERIF_SEED", 3600/wall),
-		"faults_fired":             faultsFired,
-		"faults_configured":        faultsCfg,
-		"reach_probes":             probes,
-		"reach_probes_at_zero":     zero,
-		"counters":                 other,
-		"foreign_observations":     agg.foreign,
-		"known_findings_matched":   nKnown,
-		"components":               p.Components,
-		"faults_not_injectable":    append([]string{"clock skew/jumps and timer faults: the code has no clock or timer", "network partitions, reordering, duplication between nodes: no multi-node protocol", "disk torn/lost writes, fsync loss: no persistent storage"}, p.NotInjectable...),
-		"workers":                  o.workers,
+		"evaluations":                  agg.runs + raceRunsOf(raceAgg),
+		"distinct_nontrivial":          len(agg.sigs),
+		"rule":                         p.Rule + " A run is non-trivial if at least one fault fired, a buffer was grown or recycled, or a task switch happened; two runs are distinct if the hashes of their abstract event traces (operation kind x size bucket x outcome x flags) differ.",
+		"samples":                      samples,
+		"exhaustive":                   false,
+		"simulated_runs":               agg.runs,
+		"race_build_runs":              raceRunsOf(raceAgg),
+		"nontrivial_runs":              agg.nonTriv,
+		"distinct_abstract_3grams":     len(agg.ngrams),
+		"distinct_schedule_signatures": len(agg.schedSigs),
+		"operations":                   agg.ops,
+		"simulated_time_events":        agg.events,
+		"runs_per_hour":                int64(float64(agg.runs+raceRunsOf(raceAgg)) / wall * 3600),
+		"seeds_per_hour":               fmt.Sprintf("%.1f batches of this size per hour; every run index of a batch is its own PRNG stream derived from VERIF_SEED", 3600/wall),
+		"faults_fired":                 faultsFired,
+		"faults_configured":            faultsCfg,
+		"reach_probes":                 probes,
+		"reach_probes_at_zero":         zero,
+		"counters":                     other,
+		"foreign_observations":         agg.foreign,
+		"known_findings_matched":       nKnown,
+		"components":                   p.Components,
+		"faults_not_injectable":        append([]string{"clock skew/jumps and timer faults: the code has no clock or timer", "network partitions, reordering, duplication between nodes: no multi-node protocol", "disk torn/lost writes, fsync loss: no persistent storage"}, p.NotInjectable...),
+		"workers":                      o.workers,
 	}
 	if raceAgg != nil {
 		cov["race_build"] = map[string]interface{}{"runs": raceAgg.runs, "counters": raceAgg.counters}
